@@ -43,6 +43,7 @@ fn main() {
         "c20" => c20::run(rest),
         "mc" => mc::run(rest),
         "enc" => mc::run_enc(rest),
+        "cli" => mc::run_cli(rest),
         other => {
             eprintln!("unknown command {other}");
             std::process::exit(2);
